@@ -17,7 +17,7 @@ CHECKS = {
     ),
     "C01": (
         "exploration",
-        "conservation oracle (interval partition of every input contig over all output assemblies pooled) on every completed remap of seeded PretextView-model, hostile, designed-tag and two-haplotype maps; CLI slice re-parses the written TPF/AGP files with independent parsers",
+        "conservation oracle (interval partition of every input contig over all output assemblies pooled) on every completed remap of seeded PretextView-model, hostile, designed-tag and two-haplotype maps; CLI slice re-parses the written TPF/AGP files with independent parsers, incl. a second run after the FASTA was replaced at the same path with the cache files' mtime; API inputs are built from one working list refilled per scaffold",
         "Every completed run of the workloads (in-memory and through the CLI's written files) is checked for lost, duplicated or invented bases; runs that end in an error are counted by exception type and raising function.",
         "Valid input assemblies (disjoint contig intervals, unique scaffold names); any exception counts as 'ends in an error'.",
         "3-C01",
@@ -38,7 +38,7 @@ CHECKS = {
     ),
     "C06": (
         "exploration",
-        "post-condition on the real format_agp at every call site (tee on the file argument) validated by an independent AGP validator; workloads: all remap outputs, FASTA .agp caches, asm-format, pretext-to-asm AGP and FASTA+AGP outputs with small stream buffers (object length = record length); fault-injection leg (FASTA writer fails part-way: any AGP left must match the FASTA beside it)",
+        "post-condition on the real format_agp at every call site (tee on the file argument) validated by an independent AGP validator; workloads: all remap outputs, FASTA .agp caches, asm-format, pretext-to-asm AGP and FASTA+AGP outputs with small stream buffers (object length = record length); fault-injection leg (FASTA writer fails part-way: any AGP left must match the FASTA beside it); FASTA run into a directory holding the AGP files of an earlier AGP run",
         "Every AGP text that any workload causes the tools to write is validated for tiling from 1, part numbers, spans, U/yes/gap type and last end = scaffold length (and FASTA record length where a FASTA is written with it).",
         "Gap length >= 1; assemblies with duplicate object names are left to C10.",
         "3-C06",
@@ -73,14 +73,14 @@ CHECKS = {
     ),
     "C11": (
         "exploration",
-        "independent junction counter over contig ends vs AssemblyStats; metamorphic recomputation of the real statistics with whole scaffolds reversed; CLI slice: log line and info.yaml vs counts recomputed from the written files",
+        "independent junction counter over contig ends vs AssemblyStats; metamorphic recomputation of the real statistics with whole scaffolds reversed; CLI slice: log line and info.yaml vs counts recomputed from the written files, with the report of an earlier run in place beforehand and contig-level assemblies under unedited maps",
         "On every completed run reported cuts/breaks/joins are compared with an independent count; the real make_stats is re-run with random whole scaffolds of input and/or output reversed and must not change; the CLI's log line, yaml totals and haplotig-removal count are compared with the files it wrote.",
         "Strands +1/-1 only.",
         "3-C11",
     ),
     "C03": (
         "exploration",
-        "post-condition on the real FastaStream.write_scaffold (tee captures the bytes of each call) vs an in-memory FASTA model; G-fasta x G-sub x buffer x line-length workload; CLI slice comparing each written .fa/.agp pair with the input FASTA",
+        "post-condition on the real FastaStream.write_scaffold (tee captures the bytes of each call) vs an in-memory FASTA model; G-fasta x G-sub x buffer x line-length workload; CLI slice comparing each written .fa/.agp pair with the input FASTA (one- and two-haplotype maps, sub-texel pieces set aside as haplotigs)",
         "Every record written by every write_scaffold call of the workloads (direct streams and pretext-to-asm runs with FASTA in/out) is compared byte-for-byte with the rows applied to the input records by an independent model; record order, uniqueness and AGP object lengths are checked on the CLI pairs.",
         "Input FASTA in the C04 domain; '?' rows stream forward; trusts vf.ref.fasta_ref and vf.ref.agp_ref.",
         "3-C03",
@@ -108,7 +108,7 @@ CHECKS = {
     ),
     "C15": (
         "fault_enumeration",
-        "process-level controlled scheduler + crash injector over real forked auto_load processes (yield points: sys.monitoring LINE events of the cache functions, raw FileIO write/read/close = flush boundaries, os.stat/replace/unlink); history driver on three mtime clocks (logical 10 s steps, sub-second steps, FASTA mtimes ahead of the wall clock) incl. objects kept alive across edits and loaded a second time; crash scenario on a FASTA just written by pretext-to-asm with its side files; oracle = reference index of the FASTA's current bytes or a loud failure",
+        "process-level controlled scheduler + crash injector over real forked auto_load processes (yield points: sys.monitoring LINE events of the cache functions, raw FileIO write/read/close = flush boundaries, os.stat/replace/unlink); history driver on three mtime clocks (logical 10 s steps, sub-second steps, FASTA mtimes ahead of the wall clock) incl. objects kept alive across edits and loaded a second time; crash scenario on a FASTA just written by pretext-to-asm with its side files; in every other crash shard all processes report one process id, and after a kill that leaves a temporary file the FASTA is replaced by a much shorter one and loaded twice; oracle = reference index of the FASTA's current bytes or a loud failure",
         "Crash points: the indexing process is killed at EVERY yield point of each scenario (cold, stale, equal mtime, .fai or .agp deleted, fresh; 2-record and 800-record files with interior flush boundaries) and a fresh load (and a second one after recovery) is judged per distinct on-disk state. Interleavings: every preemption position for 2 processes/1 preemption, 3 processes/1 preemption, 3 processes/2 preemptions at file operations (quick) plus 2 processes/2 preemptions (thorough) and random-priority schedules. Histories: all sequences up to length 3 (quick) / 4 (thorough) over the property's alphabet plus random ones to length 10, also with the FASTA reached through a symbolic link.",
         "Process crashes (completed writes persist, user-space buffers lost, no torn write); FASTA not edited while being indexed; bounds as stated; scheduling granularity = statements of tola/fasta/index.py cache functions + raw file operations.",
         "3-C15",
@@ -143,7 +143,7 @@ CHECKS = {
     ),
     "C20": (
         "exploration",
-        "contract (never raises, alternating str/int) on the real Assembly.name_natural_key for every key computed; permutation, numeric, nematode-numeral, unloc and rank laws on scaffolds_sorted_by_name / smart_sort_scaffolds over seeded name sets; CLI leg: monitor on pretext_to_asm.name_assemblies snapshots (rank, name) of every assembly handed to the writer and the object order of every written AGP file must be a concatenation of those sorted assemblies",
+        "contract (never raises, alternating str/int) on the real Assembly.name_natural_key for every key computed; permutation, numeric, nematode-numeral, unloc and rank laws on scaffolds_sorted_by_name / smart_sort_scaffolds over seeded name sets; CLI leg: monitor on pretext_to_asm.name_assemblies snapshots (rank, name) of every assembly handed to the writer and the object order of every written AGP file must be a concatenation of those sorted assemblies; every third case also without --output: the printed listing vs the assemblies handed to write_assembly",
         "Seeded name sets (G-names incl. I/V/X runs, leading zeros, unloc suffixes) are sorted from several permutations; totality, permutation-invariance of the key sequence and the documented orderings are asserted on each.",
         "ASCII names < 60 chars; unloc law for chromosome names none of which is a digit-extended prefix of another; an all_haplotigs file is several sorted assemblies one after another.",
         "3-C20",
